@@ -369,7 +369,10 @@ def shrink_case(ctx, combo, idx, logqp=False):
     monotone = es[2] < es[1] < es[0]
     halves = es[2] <= es[0] / 2
     ctx.case(("shrink", ty, noise, method, am, logqp), sample=dict(key, e=es))
-    if es[0] <= 1e-12:            # the reversible pair: already at rounding level, nothing to shrink
+    if (method, am) == ("reversible_heun", "adjoint_reversible_heun") or es[0] <= 1e-12:
+        # the reversible pair is the exact discrete adjoint (C10 decides it, at rounding level): there is no
+        # discretisation gap to shrink, and what is left is rounding error of the reconstruction, which GROWS with the
+        # number of steps - recorded, not judged here
         verdict = "rounding_level"
     elif monotone and halves:
         verdict = "shrinks"
